@@ -17,9 +17,9 @@
     [stringSliceValue.Set(v)]: [readAsCSV(v)] (encoding/csv, Comma ','), the FIRST Set replaces the
     default, later ones append; [FlagSet.Set] marks the flag Changed.
     Route of the project file (cmdapi/schema.go setSchemaEnvFlags, cmdapi/cmdapi.go maySetFlag):
-    [maySetFlag(cmd, "exclude", strings.Join(env.Exclude, ","))] = nothing when the flag is Changed or
-    the joined text is empty, else [cmd.Flags().Set("exclude", joined)] -- the env list goes through
-    the same csv reader as ONE flag value.
+    [maySetFlag(cmd, "exclude", joinCSV(env.Exclude))] (fix C19-env-exclude-csv; before: strings.Join(env.Exclude, ","))
+    = nothing when the flag is Changed or the text is empty, else [cmd.Flags().Set("exclude", text)] -- the env list
+    goes through the same csv reader as ONE flag value, written as one CSV record so that every value comes back whole.
     Use (schemaInspectRun, schemaApplyRun, schemaDiffRun): every [stateReader] of the command gets
     [exclude: flags.exclude]; a database URL bound to a schema is read by [SchemaConn] ->
     driver [InspectSchema] -> [schema.ExcludeSchema]; an HCL file by cmdext.stateReaderHCL ->
@@ -99,8 +99,62 @@ Definition maySetFlag (s : sliceval) (envVal : bytes) : eres sliceval :=
   if sv_changed s then EOk s
   else match envVal with [] => EOk s | _ => ss_set s envVal end.
 
-(** the exclude line of cmdapi.setSchemaEnvFlags *)
+(** encoding/csv Writer.Write of ONE record (Comma ',', UseCRLF off), without the final newline:
+    fieldNeedsQuotes = the field is `\.`, or holds the comma, a double quote, CR or LF, or starts with a
+    space (unicode.IsSpace of its first rune); a quoted field doubles its quotes. *)
+Definition first_rune_space (f : bytes) : bool :=
+  match f with
+  | c :: t =>
+    ((9 <=? c) && (c <=? 13)) || (c =? 32)
+    || match t with
+       | d :: u =>
+         ((c =? 194) && ((d =? 133) || (d =? 160)))                                   (* U+0085, U+00A0 *)
+         || match u with
+            | e :: _ =>
+              ((c =? 225) && (d =? 154) && (e =? 128))                                 (* U+1680 *)
+              || ((c =? 226) && (d =? 128) && (((128 <=? e) && (e <=? 138)) || (e =? 168) || (e =? 169) || (e =? 175)))
+              || ((c =? 226) && (d =? 129) && (e =? 159))                              (* U+205F *)
+              || ((c =? 227) && (d =? 128) && (e =? 128))                              (* U+3000 *)
+            | [] => false
+            end
+       | [] => false
+       end
+  | [] => false
+  end.
+Definition csv_special (c : N) : bool := (c =? ch_comma) || (c =? ch_dq) || (c =? 10) || (c =? 13).
+Definition fieldNeedsQuotes (f : bytes) : bool :=
+  match f with
+  | [] => false
+  | _ => bytes_eqb f [92; 46] || existsb csv_special f || first_rune_space f
+  end.
+Fixpoint csv_escape (f : bytes) : bytes :=
+  match f with
+  | [] => []
+  | c :: t => if c =? ch_dq then ch_dq :: ch_dq :: csv_escape t else c :: csv_escape t
+  end.
+Definition csv_field (f : bytes) : bytes :=
+  if fieldNeedsQuotes f then ch_dq :: csv_escape f ++ [ch_dq] else f.
+Fixpoint csv_record (l : list bytes) : bytes :=
+  match l with
+  | [] => []
+  | [f] => csv_field f
+  | f :: l' => csv_field f ++ ch_comma :: csv_record l'
+  end.
+
+(** cmdapi.joinCSV (fix C19-env-exclude-csv): the list as one CSV record; nothing for an empty list or a
+    single empty value *)
+Definition joinCSV (vs : list bytes) : bytes :=
+  match vs with
+  | [] => []
+  | [[]] => []
+  | _ => csv_record vs
+  end.
+
+(** the exclude line of cmdapi.setSchemaEnvFlags (after fix C19-env-exclude-csv: [joinCSV]; before the fix
+    the list was joined with "," -- [setSchemaEnvFlags_before_fix] -- and a pattern holding a comma became two) *)
 Definition setSchemaEnvFlags (s : sliceval) (envExclude : list bytes) : eres sliceval :=
+  maySetFlag s (joinCSV envExclude).
+Definition setSchemaEnvFlags_before_fix (s : sliceval) (envExclude : list bytes) : eres sliceval :=
   maySetFlag s (join_comma envExclude).
 
 Inductive command := CInspect | CApply | CDiff | CMigrateDiff | CClean.
